@@ -862,6 +862,17 @@ class C13:
                 if pc and pc['kind'] == 'ok' and finite(pc['vals'][0]) and c.vol:
                     vol_dev.append((abs(pc['vals'][0] - c.vol) / abs(c.vol), c.name, c.vol, pc['vals'][0]))
         vol_dev.sort(reverse=True)
+        # ---- user-supplied crystals: what a collection hands out after Crystal_AddCrystal carries the RECOMPUTED volume, whatever
+        #      (stale) value the caller's struct held
+        stored_bad = []
+        ucs = [c for c in crystals if not c.builtin and valid.get(c.id, {}).get('cell') and valid.get(c.id, {}).get('nondeg') and L('vol', c.id, 'E') in seen][:400]
+        if ucs:
+            so_ = R.run_c(['stored %d' % c.id for c in ucs], crystals)
+            for c, a in zip(ucs, so_):
+                pa_ = parse(a); pv = parse(c_out[mains.index(L('vol', c.id, 'E'))])
+                if pa_['kind'] != 'ok' or pv['kind'] != 'ok' or pv['slot'].startswith('F'): continue
+                if pa_['slot'] == 'N' or not close(pa_['vals'][0], pv['vals'][0], 1e-12):
+                    stored_bad.append((c, pa_, pv))
         # ---- violation search (always): specification + relations vs the library --------------------------------
         t = time.time()
         sl = [spec_line(m) for m in mains]
@@ -870,6 +881,9 @@ class C13:
         spec_out = [None] * len(mains)
         for i, e in zip(si, so): spec_out[i] = e
         found, sstats = search(R, crystals, mains, c_out, aux_out, spec_out, valid)
+        for c, pa_, pv in stored_bad[:20]:
+            found.append(Finding('vol %d E' % c.id, None, 'user-supplied crystal %s: after Crystal_AddCrystal the collection hands out stored volume %r, the recomputed volume is %r (the caller\'s struct carried a stale value)' % (
+                c.name, pa_['vals'][0] if pa_['slot'] != 'N' else None, pv['vals'][0])))
         for dv, name, stored, rec in vol_dev:
             if dv > 1e-6: found.append(Finding('vol %d E' % [c.id for c in crystals if c.name == name][0], None,
                                                'stored volume of built-in crystal %s = %r, recomputed %r (relative deviation %.3g > 1e-6)' % (name, stored, rec, dv)))
